@@ -1,6 +1,7 @@
 import Orb.Proto
 import Orb.Project
 import Driver.C18
+import Driver.HeapOps
 
 /-!
   Driver for C15 (project.WGS84 / Mercator closed forms, project.Geometry, mvt tile projection).
@@ -251,11 +252,76 @@ def handleProj (inp out : Toks) : String :=
       | .nilSlice k, .nilSlice k' => if k == k' && calls == 0 then "ok triv-proj-nilslice" else "propfail project-nilslice"
       | _, _ => "propfail project-nil-kind"
 
+/-! ### heap level: `project.Geometry` on slices that share backing arrays (`Orb.HeapOps.projectH`) -/
+
+/-- the harness's pure affine point function of `projh` -/
+def affineH (co : Array Float) : Pt Float → Pt Float := fun p =>
+  let c := fun (i : Nat) => co.getD i 0
+  ⟨c 0 * p.x + c 1 * p.y + c 2, c 3 * p.x + c 4 * p.y + c 5⟩
+
+/-- `projh a b c d e f <heap> <sgeom> => <heap afterwards> <located result> <located argument>` -/
+def handleProjH (inp out : Toks) : String :=
+  match (do
+    let (co, i) ← many bits 6 inp
+    let (hp, i) ← Driver.HeapOps.heapP i
+    let (g, _) ← Driver.HeapOps.sgeomP i
+    pure (co, hp, g)) with
+  | none => "bad projh"
+  | some (co, hp, g) =>
+    if out == ["panic"] then "propfail panic" else
+    let f := affineH (co.map fl).toArray
+    let σ := Driver.HeapOps.storeF hp
+    let gF := Driver.HeapOps.mapS fl g
+    let (σ', r) := Orb.HeapOps.projectH σ gF f
+    let n0 := hp.length
+    let isVal := match gF with | .point _ | .bound _ _ => true | _ => false
+    let arg := if isVal then gF else r
+    let m := showPtss (Driver.HeapOps.storeBits σ') ++ " " ++ Driver.HeapOps.showSGeom n0 σ' r ++ " " ++
+      Driver.HeapOps.showSGeom n0 σ' arg
+    let got := " ".intercalate out
+    let agree : Option String := if m == got then none else some ("diff " ++ m)
+    fin agree <|
+    match Driver.HeapOps.heapP out with
+    | none => "bad projh-out"
+    | some (hp', rest) =>
+      -- executable statements of `project_cell` (every cell holds f applied once per header
+      -- occurrence covering it: 0 = frame, 1 = in place, 2 = the shared vertices are projected TWICE),
+      -- of `project_in_place` (the very same headers come back, nothing is fresh) and of
+      -- "the argument holds the result"
+      let hs := Orb.HeapOps.hdrs gF
+      let cnt := fun (a i : Nat) => hs.countP (·.covers a i)
+      let cs := Driver.HeapOps.cells hp
+      if hp'.length != hp.length || (hp.zip hp').any (fun (x, y) => x.length != y.length) then
+        "propfail project-heap-shape" else
+      let bad := cs.filter fun (a, i) =>
+        let old := ((hp.getD a []).getD i ⟨0, 0⟩)
+        let new := ((hp'.getD a []).getD i ⟨0, 0⟩)
+        let want := Orb.HeapOps.iter f (cnt a i) (mapPt fl old)
+        !(Driver.HeapOps.samePt (mapPt Float.toBits want) new)
+      if !bad.isEmpty then
+        (match bad.head? with
+         | some (a, i) => s!"propfail project-cell-count array={a} index={i} covered={cnt a i}"
+         | none => "propfail project-cell-count") else
+      if Driver.HeapOps.countFresh rest != 0 then "propfail project-not-in-place fresh-slice" else
+      let half := rest.length / 2
+      if !isVal && rest.take half != rest.drop half then "propfail project-argument-differs-from-result" else
+      if Driver.HeapOps.locsOf (rest.take (if isVal then rest.length else half)) != hs.filter (·.cap != 0)
+          && !isVal then
+        "propfail project-not-in-place headers" else
+      let mx := cs.foldl (fun acc (a, i) => max acc (cnt a i)) 0
+      let partialOverlap := hs.any fun h =>
+        let ks := (List.range h.len).map fun k => cnt h.arr (h.off + k)
+        ks.any (· != ks.headD 0)
+      if isVal then "ok triv-projh-value" else
+      if mx == 0 then "ok triv-projh-no-cells" else
+      s!"ok projh {if mx == 1 then "each-cell-once" else if mx == 2 then "shared-twice" else "shared-3+"}{if partialOverlap then " partial-overlap" else ""}"
+
 def handle (ts : Toks) : String :=
   match ts with
   | op :: rest =>
     let (inp, out) := splitArrow rest
     match op with
+    | "projh" => handleProjH inp out
     | "consts" => handleConsts out
     | "w2m" => handleW2M inp out
     | "m2w" => handleM2W inp out
